@@ -1,6 +1,6 @@
 """X table for C04/C05: which atoms does a torsion change move?  For every standard residue type in every chain
 position (3-residue fragments of 1AFS run through the real pipeline with hydrogens, so that the terminal caps exist)
-the REAL set_reference_distance / get_moveable_names are evaluated for every dihedral of the residue's template and
+(plus one-residue chains carrying their own OXT, which are both N- and C-terminal) the REAL set_reference_distance / get_moveable_names are evaluated for every dihedral of the residue's template and
 compared with the rigid-rotation requirement of the statement:
   (1) no backbone or terminal-cap atom (N CA C O OXT H H2 H3 HO HA HA2 HA3) is in the moved set;
   (2) every bond between a moved and an unmoved atom ends on one of the two axis atoms (so all bond lengths and
@@ -13,7 +13,7 @@ import sys
 
 RES = ["ALA", "ARG", "ASN", "ASP", "CYS", "GLN", "GLU", "GLY", "HIS", "ILE", "LEU", "LYS", "MET", "PHE", "PRO",
        "SER", "THR", "TRP", "TYR", "VAL"]
-POS = {"nterm": 0, "mid": 1, "cterm": 2}
+POS = {"nterm": 0, "mid": 1, "cterm": 2, "single": 0}
 FIXED = {"N", "CA", "C", "O", "OXT", "H", "H2", "H3", "HO", "HA", "HA2", "HA3"}
 
 
@@ -27,7 +27,14 @@ def _cell(task):
     key = f"{resname}|{pos}" + ("|" + "+".join(extra) if extra else "")
     if w is None:
         return key, {"ok": None}
-    r = pl.run(pl.fragment(res, *w), ["--ff=PARSE", "--noopt", "--nodebump", *extra])
+    if pos == "single":
+        # a one-residue chain that already carries its OXT: the residue is both N- and C-terminal
+        from bounded.c02_termini import build
+
+        text = build(res[w[0]:w[0] + 1], 1, [1], "A")
+    else:
+        text = pl.fragment(res, *w)
+    r = pl.run(text, ["--ff=PARSE", "--noopt", "--nodebump", *extra])
     if not r["ok"]:
         return key, {"ok": False, "why": r["error"][:160]}
     biomol = r["biomolecule"]
@@ -58,6 +65,7 @@ def _cell(task):
 def table():
     tasks = [(r, p, ()) for r in RES for p in POS]
     tasks += [(r, "nterm", ("--neutraln",)) for r in RES] + [(r, "cterm", ("--neutralc",)) for r in RES]
+    tasks += [(r, "single", ()) for r in RES] + [(r, "single", ("--neutraln", "--neutralc")) for r in ("LYS", "MET", "GLU")]
     with mp.get_context("fork").Pool(min(16, os.cpu_count() or 4)) as pool:
         return dict(pool.map(_cell, tasks, chunksize=4))
 
